@@ -61,6 +61,76 @@ CHECKS = {
         "note": "Sibling agreement, not an independent oracle (C01/C02 supply that). Trusted: documented semantics of ndimage.correlate1d/"
         "laplace, numba faithfully compiling Python, LLVM. Not decided: size of round-off differences between routes.",
     },
+    "C04": {
+        "level": "other",
+        "technique": "static: cache-key model read from tools/cache.py (hash_mutable dispatch + decorator wrapper); class-index classification of every annotated argument of the cached sites; interprocedural tracking of address reads (.ctypes/__array_interface__) from cached methods; dominance rule for re-bind/invalidation; read-set vs compared-set of PDE._prepare_cache",
+        "text": "For every @cached_method/@cached_property site, each declared argument type (closure over subclasses and over what the __dict__ "
+        "fallback recurses into) contributes to the key in a way that separates what __eq__ separates and separates sibling classes; no "
+        "ignore_args hides a used argument; every array whose address is captured by a cached result is either keyed by address or the "
+        "per-object cache is dropped on every re-binding path; PDE._prepare_cache compares everything the rhs compilation reads from "
+        "`state`. Decided for all inputs and histories over the annotated types; not a proof because annotations and the call-graph "
+        "approximation are trusted.",
+        "note": "Trusted: CPython ast, parameter annotations, the Python data model (__eq__ without __hash__ means unhashable), class-hierarchy "
+        "call resolution (unresolved calls with tracked arguments are listed in the evidence). Assumes fixed global configuration and no "
+        "mutation of public PDE/BC attributes between calls. Unannotated / Any / **kwargs values are listed as unclassified.",
+    },
+    "C07": {
+        "level": "other",
+        "technique": "static: ownership/alias/effect rules on syntax + CFG reaching definitions; sympy closed forms of the stepping loops (interprocedural through the compiled closure); linear-form normalisation of the loop guard",
+        "text": "The caller's state can only reach .copy(), and the copy is what is stepped, tracked and returned. The main loop asks the stepper "
+        "for min(next action, t_end) under a strict guard with positive tolerance, takes time only from t_start or the stepper's return, and "
+        "reports it as t_final. Every fixed stepper on numpy and numba (plus jax/torch in the thorough tier) computes steps = "
+        "max(1, round(delta/dt)), accounts it once on every path, runs exactly `steps` iterations at t_start + i*dt, and returns "
+        "t_start + steps*dt identically, hence within dt/2 of t_end for delta >= dt/2. No tracker `handle` in the package writes through, "
+        "mutates in place, or retains a view of the state.",
+        "note": "Trusted: ast, sympy simplification, |round(x) - x| <= 1/2, numba compiling Python semantics. Assumes copy() is independent (C15), "
+        "storages copy (C20), user callables are read-only. Not decided: that per-segment roundings add up to exactly N steps / bit-identical "
+        "states for all (dt, interval, range) -- a floating-point statement over unbounded inputs.",
+    },
+    "C08": {
+        "level": "other",
+        "technique": "static: hand-built CFG with StopIteration exception edges; dominance, post-dominance, path counting and reachability queries; reaching definitions; linear-form normalisation of tolerances",
+        "text": "On every path of TrackerCollection.handle a due tracker is served with (state, t) and its slot advanced by interrupt.next(t) "
+        "exactly once (never when not due), whether or not it raised StopIteration; the stop request is deferred past the loop and always "
+        "re-raised. Controller._run_main_process handles once before each single stepper call, has exactly one final handle on the "
+        "no-exception exit, and reaches neither stepper nor handle after a stop; finalize, t_final and stop_reason cover all non-raising "
+        "exits, tolerances are 0.5*dt and 1e-6*dt at every site; the storage tracker pairs start, append(time=t) and end. Necessary "
+        "structural conditions, for all inputs.",
+        "note": "Trusted: CPython ast, the pdelint.cfg exception model (implicit raises only from calls inside try). Assumes trackers signal a stop "
+        "only by StopIteration or a subclass. Not decided: frame counts floor(T/D)+1 for arbitrary D/dt (float arithmetic).",
+    },
+    "C09": {
+        "level": "other",
+        "technique": "static: CFG with IndexError edges from subscripts, reaching definitions on self._t_next / self._index, integer-valuedness, sign and ordering-fact flow",
+        "text": "For every deterministic interrupt class each cursor store keeps the schedule on its lattice (+= dt or += dt*integer, +1, "
+        "scale*factor**integer); one strictly positive advance lies on every path, catch-up counts are evaluated where they are >= 0, and "
+        "every answer is handed out only where the code established it is not earlier than the query (or on the labelled float-repair "
+        "path). Exhausted fixed schedules answer infinity without touching the cursor; the logarithmic gap is scaled exactly once before "
+        "the inherited step; parse_interrupt dispatch is exhaustive.",
+        "note": "Trusted: ast, ceil/floor return integer values. Assumes the documented parameter preconditions (dt > 0, factor > 1 resp. >= 1, "
+        "increasing list) and one initialize followed by non-decreasing queries. Not decided: round-off near exact hits.",
+    },
+    "C15": {
+        "level": "other",
+        "technique": "static: FRESH/VIEW/MAYBE alias typing and write-effect analysis over all structured paths of the field classes (def-use per path, interprocedural summary of number_array), allow-listed writers of the padded array",
+        "text": "For all histories, as far as the code shape decides: `data` stays a view of the padded array that only the _data_full setter "
+        "re-binds; constructor, copy, arithmetic, out-less operator calls, collection copy/slice/append return memory that aliases no "
+        "operand; binary operations never write an operand; in-place operations and setters write valid cells of self only; component "
+        "access returns views of the parent; a collection lays members out in field order and links every member to a slice of its own "
+        "fresh array.",
+        "note": "Trusted: CPython ast; documented numpy copy/view semantics; loops taken 0/1 times, explicit raises only; results of "
+        "tools.expressions.evaluate not analysed. Not decided: aliasing introduced by numpy for exotic dtypes/strides.",
+    },
+    "C20": {
+        "level": "other",
+        "technique": "static: ast path enumeration with fact propagation; FRESH/VIEW alias typing through per-path def-use; paired-update rule on times/data; write-mode transition table extracted from start_writing with the inherited method spliced in",
+        "text": "For all call sequences: an appended frame is a fresh copy of the data argument, appended together with its time stamp; no method "
+        "lets times and data get out of step on any path, including raising ones; frames read back are fresh copies of the template filled "
+        "by value; start_writing realises exactly the documented mode table and rejects readonly before writing anything; extract_field "
+        "copies, extract_time_range and items pair by identical indices, clear empties both lists.",
+        "note": "Trusted: CPython ast; numpy copy semantics (np.array/copy=True/.copy()/np.copy allocate; indexing, asarray, reshape share). Assumes "
+        "loops unrolled 0/1 and only explicit raises; from_fields/extract_time_range sharing is by design and outside the statement.",
+    },
 }
 
 NOT_APPLICABLE: dict[str, str] = {}
